@@ -631,3 +631,17 @@ Definition GS (s : st) : Prop :=
 
 (** capacity invariant *)
 Definition G1 (s : st) : Prop := 1 <= cap s /\ len (q s) <= cap s.
+
+(** FIFO invariant: accepted = received ++ buffered ++ destroyed-with-the-channel, in send order *)
+Definition G2 (s : st) : Prop := acc s = rcv s ++ q s ++ qdrp s /\ (qdrp s <> [] -> hs s = []).
+
+(** conservation: every id ever handed to the API is in exactly one place *)
+Definition cnt (v : N) (l : list N) : nat := count_occ N.eq_dec l v.
+Definition held (s : st) : list N := rcv s ++ q s ++ fitems (fs s) ++ back s ++ drp s.
+Definition G3 (s : st) : Prop :=
+  (forall v, cnt v (used s) = cnt v (held s)) /\ (forall v, (cnt v (used s) <= 1)%nat).
+
+Definition Inv (s : st) : Prop := G1 s /\ GS s /\ G2 s /\ G3 s.
+
+(** a step starts by clearing the per-call event logs *)
+Definition clear_ev (s : st) : st := set_evd (set_evw s []) [].
